@@ -9,9 +9,6 @@ namespace Props.C06
 open Py Xs.Dates Xs.Spec Proofs.DatesAccept Proofs.DatesFormatParse
 open Xs.Conv (AllXsdSpace strip_xsd_pad)
 
-private theorem digs {s : Str} (h : s.all isAsciiDigit = true) : Xs.Conv.AllDigits s := by
-  intro c hc; exact List.all_eq_true.1 h c hc
-
 /-- **parse_accepts_valid (date)**: all years (negative, `-0000`, more than four
 digits), every month/day pair the calendar has, every timezone form (`Z`,
 `+00:00`, `-00:00`, … `±14:00`), XSD white space around. -/
@@ -81,14 +78,14 @@ theorem time_rejects_tenth_fraction_digit :
     XmlTime.fromString Env.ascii "01:02:03.1234567890".toList = none := by
   refine ⟨⟨"01:02:03.1234567890".toList, [], Or.inl ⟨"01".toList, "02".toList, "03.1234567890".toList,
     ⟨⟨'0', '1', rfl, rfl, rfl, rfl⟩, by decide⟩, ⟨⟨'0', '2', rfl, rfl, rfl, rfl⟩, by decide⟩,
-    ⟨"03".toList, ⟨'0', '3', rfl, rfl, rfl, rfl⟩, by decide, digs (by decide), rfl⟩, rfl⟩,
+    ⟨"03".toList, ⟨'0', '3', rfl, rfl, rfl, rfl⟩, by decide, allDigits_of_all (by decide), rfl⟩, rfl⟩,
     Or.inl ⟨rfl, rfl⟩, rfl⟩, by decide⟩
 
 /-! the hypotheses are satisfiable: concrete non-trivial lexical forms -/
 
 example : XsdDate "-0000-02-29-14:00".toList 0 2 29 (some (-840)) :=
   ⟨"-0000".toList, "02".toList, "29".toList, "-14:00".toList,
-    ⟨true, "0000".toList, rfl, digs (by decide), by decide, by decide, rfl⟩,
+    ⟨true, "0000".toList, rfl, allDigits_of_all (by decide), by decide, by decide, rfl⟩,
     ⟨⟨'0', '2', rfl, rfl, rfl, rfl⟩, by decide, by decide⟩,
     ⟨⟨'2', '9', rfl, rfl, rfl, rfl⟩, by decide, by decide⟩,
     Or.inr (Or.inr ⟨'-', "14".toList, "00".toList, 14, 0, Or.inr rfl, ⟨'1', '4', rfl, rfl, rfl, rfl⟩,
@@ -100,12 +97,12 @@ example : XsdTime "24:00:00.000Z".toList 24 0 0 "000".toList (some 0) :=
 
 example : XsdDateTime "12345-12-31T23:59:59.5+00:00".toList 12345 12 31 23 59 59 "5".toList (some 0) :=
   ⟨"12345".toList, "12".toList, "31".toList, "23:59:59.5".toList, "+00:00".toList,
-    ⟨false, "12345".toList, rfl, digs (by decide), by decide, by decide, rfl⟩,
+    ⟨false, "12345".toList, rfl, allDigits_of_all (by decide), by decide, by decide, rfl⟩,
     ⟨⟨'1', '2', rfl, rfl, rfl, rfl⟩, by decide, by decide⟩,
     ⟨⟨'3', '1', rfl, rfl, rfl, rfl⟩, by decide, by decide⟩,
     Or.inl ⟨"23".toList, "59".toList, "59.5".toList, ⟨⟨'2', '3', rfl, rfl, rfl, rfl⟩, by decide⟩,
       ⟨⟨'5', '9', rfl, rfl, rfl, rfl⟩, by decide⟩,
-      ⟨"59".toList, ⟨'5', '9', rfl, rfl, rfl, rfl⟩, by decide, digs (by decide), rfl⟩, rfl⟩,
+      ⟨"59".toList, ⟨'5', '9', rfl, rfl, rfl, rfl⟩, by decide, allDigits_of_all (by decide), rfl⟩, rfl⟩,
     Or.inr (Or.inr ⟨'+', "00".toList, "00".toList, 0, 0, Or.inl rfl, ⟨'0', '0', rfl, rfl, rfl, rfl⟩,
       ⟨'0', '0', rfl, rfl, rfl, rfl⟩, Or.inl ⟨by decide, by decide⟩, rfl, rfl⟩),
     by decide, rfl⟩
